@@ -222,7 +222,12 @@ func (g *tgen) updateOp(rt *rapid.T, db *model.DB, illTyped int) model.Op {
 	c := gen.NewExprCtx(base, g.o)
 	cfg := gen.UpdateCfg{MaxActions: 3, KeyAttrs: g.s.KeyAttrs(), ExtraTargets: g.ixAttrs(), ExtraValues: g.ixVals, IllTyped: illTyped}
 	u := c.Update(rt, cfg)
-	return model.Op{Kind: "Update", Table: g.s.Table, Key: key, Update: model.RenderUpdate(u), Names: c.Names, Values: c.Values}
+	op := model.Op{Kind: "Update", Table: g.s.Table, Key: key, Update: model.RenderUpdate(u), Names: c.Names, Values: c.Values}
+	if rapid.IntRange(0, 5).Draw(rt, "withReturnValues") == 3 {
+		// an explicit ReturnValues parameter: the effect on the table is the same
+		op.ReturnValues = rapid.SampledFrom([]string{"NONE", "ALL_OLD", "UPDATED_OLD", "ALL_NEW", "UPDATED_NEW"}).Draw(rt, "returnValues")
+	}
+	return op
 }
 
 func emptyToNil(m map[string]string) map[string]string {
